@@ -19,11 +19,15 @@ func convertTWCC(feedback *rtcp.TransportLayerCC) []acknowledgement {
 	nextTimestamp := time.Time{}.Add(time.Duration(feedback.ReferenceTime) * 64 * time.Millisecond)
 	recvDeltaIndex := 0
 
+	// Only the first PacketStatusCount symbols describe packets: the run length
+	// of the last chunk may be longer and a status vector chunk is padded to
+	// its full size. The surplus symbols have no deltas and must be ignored.
+	count := int(feedback.PacketStatusCount)
 	offset := 0
 	for _, pc := range feedback.PacketChunks {
 		switch chunk := pc.(type) {
 		case *rtcp.RunLengthChunk:
-			for i := uint16(0); i < chunk.RunLength; i++ {
+			for i := uint16(0); i < chunk.RunLength && offset < count; i++ {
 				seqNr := feedback.BaseSequenceNumber + uint16(offset) // nolint:gosec
 				offset++
 				switch chunk.PacketStatusSymbol {
@@ -55,6 +59,9 @@ func convertTWCC(feedback *rtcp.TransportLayerCC) []acknowledgement {
 			}
 		case *rtcp.StatusVectorChunk:
 			for _, s := range chunk.SymbolList {
+				if offset >= count {
+					break
+				}
 				seqNr := feedback.BaseSequenceNumber + uint16(offset) // nolint:gosec
 				offset++
 				switch s {
